@@ -4,11 +4,13 @@ import (
 	"context"
 	"errors"
 	"fmt"
+	"strings"
 	"testing"
 	"testing/synctest"
 	"time"
 
 	header "github.com/celestiaorg/go-header"
+	"github.com/ipfs/go-datastore"
 	"pgregory.net/rapid"
 
 	"verif/harness/vh"
@@ -27,6 +29,10 @@ type C12ResetScenario struct {
 	Wipes   int      `json:"wipes"`   // 1 or 2 whole-store deletions (the second after a short run appended in between)
 	Start   int      `json:"start"`   // first height of the run appended after the (last) deletion
 	N       int      `json:"n"`
+	// Mode "" = whole-store deletion(s) under the waiting readers. "reopen", "lost_head", "lost_tail": instead, the
+	// store is stopped and a new Store is opened on its data (with the head/tail pointer record removed, as a crash
+	// can leave it); the readers start on the new Store and the run is appended at or above the old head + 1
+	Mode string `json:"mode,omitempty"`
 }
 
 func genC12Reset(t *rapid.T) C12ResetScenario {
@@ -49,6 +55,11 @@ func genC12Reset(t *rapid.T) C12ResetScenario {
 		s.Readers = append(s.Readers, rapid.IntRange(0, 6).Draw(t, "roff"))
 	}
 	s.Start = rapid.IntRange(1, base+4).Draw(t, "start")
+	s.Mode = rapid.SampledFrom([]string{"", "", "", "reopen", "lost_head", "lost_tail"}).Draw(t, "mode")
+	if s.Mode != "" {
+		s.Wipes = 0
+		s.Start = base + (s.Start-1)%4
+	}
 	return s
 }
 
@@ -100,6 +111,54 @@ func runC12Reset(t *testing.T, s C12ResetScenario) (res Result) {
 		}
 		synctest.Wait()
 
+		if s.Mode != "" {
+			c2, cn := vctx(time.Hour)
+			err := e.st.Stop(c2)
+			cn()
+			if err != nil {
+				res.failf("Stop: %v", err)
+				return
+			}
+			lost := map[string]string{"lost_head": "/head", "lost_tail": "/tail"}[s.Mode]
+			if lost != "" {
+				n := 0
+				for _, k := range e.mem.Keys() {
+					if strings.HasSuffix(k, lost) {
+						_ = e.mem.Delete(ctx, datastore.NewKey(k))
+						n++
+					}
+				}
+				if n != 1 {
+					res.failf("HARNESS: %d keys ending in %s", n, lost)
+					return
+				}
+			}
+			if err := e.open(ctx); err != nil {
+				res.failf("Start on the data of the stopped store (%s): %v", s.Mode, err)
+				return
+			}
+			head, err := e.st.Head(ctx)
+			if err != nil {
+				res.failf("%s: Head: %v", s.Mode, err)
+				return
+			}
+			if hh := e.st.Height(); hh != head.H {
+				res.failf("%s: after Start Height() is %d but Head() is at %d", s.Mode, hh, head.H)
+				return
+			}
+			if s.Tail > 1 {
+				// at or below Height and not stored: ErrNotFound promptly
+				c1, cn := vctx(time.Minute)
+				t0 := time.Now()
+				g, err := e.st.GetByHeight(c1, uint64(s.Tail-1))
+				cn()
+				if err == nil || !errors.Is(err, header.ErrNotFound) || time.Since(t0) > time.Second {
+					res.failf("%s: GetByHeight(%d) below Tail %d (Height()=%d) returned (%v, %v) after %v instead of ErrNotFound promptly", s.Mode, s.Tail-1, s.Tail, e.st.Height(), g, err, time.Since(t0))
+					return
+				}
+			}
+		}
+
 		obs := make([]c12ReaderObs, len(s.Readers))
 		done := make([]chan struct{}, len(s.Readers))
 		rctx, rcancel := context.WithCancel(ctx)
@@ -132,7 +191,7 @@ func runC12Reset(t *testing.T, s C12ResetScenario) (res Result) {
 				return
 			}
 		}
-		if !wipe("first deletion") {
+		if s.Mode == "" && !wipe("first deletion") {
 			return
 		}
 		appended := map[uint64]bool{}
@@ -191,7 +250,7 @@ func runC12Reset(t *testing.T, s C12ResetScenario) (res Result) {
 			}
 		}
 		res.NonTrivial = woken > 0
-		res.label(fmt.Sprintf("wipes=%d", s.Wipes), fmt.Sprintf("woken=%d", woken))
+		res.label(fmt.Sprintf("wipes=%d", s.Wipes), fmt.Sprintf("woken=%d", woken), "mode="+s.Mode)
 		if from != base {
 			res.label("run_starts_elsewhere")
 		}
